@@ -197,6 +197,13 @@ static void ts_lexer_goto(Lexer *self, Length position) {
   else {
     self->current_included_range_index = self->included_range_count;
     TSRange *last_included_range = &self->included_ranges[self->included_range_count - 1];
+    // Trailing empty ranges hold no text; the input ends with the last range that does.
+    while (
+      last_included_range > self->included_ranges &&
+      last_included_range->end_byte == last_included_range->start_byte
+    ) {
+      last_included_range--;
+    }
     self->current_position = (Length) {
       .bytes = last_included_range->end_byte,
       .extent = last_included_range->end_point,
@@ -459,8 +466,34 @@ void ts_lexer_start(Lexer *self) {
   self->data.result_symbol = 0;
   self->did_get_column = false;
   if (!ts_lexer__eof(&self->data)) {
+    unsigned range_index = self->current_included_range_index;
     if (!self->chunk_size) ts_lexer__get_chunk(self);
     if (!self->lookahead_size) ts_lexer__get_lookahead(self);
+
+    // If the lexer was moved forward to the start of an included range and the
+    // text turns out to end before that range, it has not really entered it:
+    // as in ts_lexer__do_advance, stay at the end of the last range that held text.
+    if (
+      ts_lexer__eof(&self->data) &&
+      range_index > 0 &&
+      self->current_position.bytes == self->included_ranges[range_index].start_byte
+    ) {
+      const TSRange *previous_included_range = &self->included_ranges[range_index - 1];
+      while (
+        previous_included_range > self->included_ranges &&
+        previous_included_range->end_byte == previous_included_range->start_byte
+      ) {
+        previous_included_range--;
+      }
+      if (previous_included_range->end_byte < self->current_position.bytes) {
+        self->current_position = (Length) {
+          previous_included_range->end_byte,
+          previous_included_range->end_point,
+        };
+        self->token_start_position = self->current_position;
+      }
+    }
+
     if (self->current_position.bytes == 0) {
       if (self->data.lookahead == BYTE_ORDER_MARK) {
         ts_lexer__advance(&self->data, true);
